@@ -311,8 +311,16 @@ pub fn run(tier: &str, seed: u64) -> Sink {
                 let d: Vec<String> = stmts.iter().zip(prog.spans.iter()).map(|(s, sp)| descr(s, *sp)).collect();
                 sink.q(format!("block {} - - {}", variant(), d.join(",")), obs.join(","));
             }
-            if !parses(&out, c.syntax) {
-                sink.v("C01", "block:unparseable-output", json!({"input": text, "config": cfg_to_string(&c), "output": out}));
+            match (parse(&text, c.syntax), parse(&out, c.syntax)) {
+                (_, None) => sink.v("C01", "block:unparseable-output", json!({"input": text, "config": cfg_to_string(&c), "output": out})),
+                (Some(a), Some(b)) => {
+                    // the statement sequence (and every statement) means what it meant: a lost `;` in front of
+                    // a `(` merges two statements into one call
+                    if crate::nf::normal_form(a) != crate::nf::normal_form(b) {
+                        sink.v("C02", "block:meaning-changed", json!({"input": text, "config": cfg_to_string(&c), "output": out}));
+                    }
+                }
+                _ => {}
             }
         }
         // ---------- C09: ranges (only programs without directives, so that C08 does not interfere)
@@ -450,6 +458,9 @@ pub fn run(tier: &str, seed: u64) -> Sink {
                             let slice = &prog.text[prog.spans[k].0..prog.spans[k].2];
                             if !out.contains(slice) {
                                 sink.v("C08", "ignored-stmt:text-changed-under-range", json!({"input": text, "config": cfg_to_string(&c), "range": [rs, re], "output": out, "statement": s.raw}));
+                                // whole-file formatting leaves it alone, so under a range its text differs from what
+                                // whole-file formatting produces: a C09 failure as well
+                                sink.v("C09", "ignored-stmt-differs-from-whole-file-under-range", json!({"input": text, "config": cfg_to_string(&c), "range": [rs, re], "output": out, "statement": s.raw}));
                             }
                         }
                     }
